@@ -113,6 +113,10 @@ def dynamic(rep, scratch, tier, seed):
              [("DOPEN", "h1", "fa", "-"), ("DOPEN", "h2", "fa", "-"), ("DCLOSE", "h1"), ("DQUERY", "h2"), ("DCLOSE", "h2"), ("DOPEN", "h3", "fa", "preload=false"), ("DQUERY", "h3"), ("DCLOSE", "h3")]]
     fixed += [[("RELPATHS",), ("DOPEN", "h1", "fa", "-"), ("DOPEN", "h2", "fb", "-"), ("DQUERY", "h1"), ("DQUERY", "h2"), ("DCLOSE", "h1"), ("DQUERY", "h2"), ("DCLOSE", "h2"),
                ("DOPEN", "h3", "fb", "preload=true"), ("DOPEN", "h4", "fa", "preload=true"), ("DQUERY", "h4"), ("DQUERY", "h3"), ("DCLOSE", "h3"), ("DCLOSE", "h4")]]
+    lru = "lrucache=true&lrucachesize=1000"
+    fixed += [[("DOPEN", "h1", "fa", lru), ("DQUERY", "h1"), ("DCLOSE", "h1"), ("DOPEN", "h2", "fa", lru), ("DQUERY", "h2"), ("DCLOSE", "h2"),
+               ("DOPEN", "h3", "fa", "preload=true&" + lru), ("DOPEN", "h4", "fa", "preload=true&" + lru), ("DCLOSE", "h3"), ("DCLOSE", "h4"),
+               ("DOPEN", "h5", "fa", "preload=true&" + lru), ("DQUERY", "h5"), ("DCLOSE", "h5")]]
     for ops in fixed:
         hist.append((ops, []))
     for _ in range(60 if tier == "quick" else 4000):
@@ -205,6 +209,17 @@ def sql_level(rep, scratch, rng, tier, dss, counts):
                                                            "SQLQ s1 d1 direct %s 1" % qnn, "ARGS 0", "SQLCLOSE d1", "SQLPROBE p1 fa"]))
     scen.append(("prepared-placeholder-under-not", ["SQLOPEN d1 fa - 2", "SQLQ s1 d1 prepared %s 3" % qph, "ARGS 1 S 1 49", "ARGS 1 S 1 49", "ARGS 1 S 1 49",
                                                     "SQLQ s2 d1 direct %s 2" % qph, "ARGS 1 S 1 49", "ARGS 1 S 1 49", "SQLCLOSE d1", "SQLPROBE p1 fa"]))
+    # queries that fail at execution (unknown column, too few arguments) between good ones, then
+    # the last close: the file must be released; two transactions open at the same time
+    lru = "lrucache=true&lrucachesize=1000"
+    qbad = core.enc_str(b'nosuchcolumn="1"')
+    qfew = core.enc_str(b"a = $1 | a = $2")
+    for pool in (1, 3):
+        scen.append(("failing-queries-then-close-pool%d" % pool, ["SQLOPEN d1 fa %s %d" % (lru, pool), "SQLQ s1 d1 direct %s 1" % q, "ARGS 0", "SQLQ e1 d1 direct %s 2" % qbad, "ARGS 0", "ARGS 0",
+                                                                  "SQLQ e2 d1 direct %s 1" % qfew, "ARGS 1 S 1 49", "SQLQ e3 d1 prepared %s 1" % qbad, "ARGS 0", "SQLQ e4 d1 tx %s 1" % qbad, "ARGS 0",
+                                                                  "SQLQ s2 d1 direct %s 1" % q, "ARGS 0", "SQLCLOSE d1", "SQLPROBE p1 fa",
+                                                                  "SQLOPEN d2 fa %s %d" % (lru, pool), "SQLQ s3 d2 direct %s 1" % q, "ARGS 0", "SQLCLOSE d2", "SQLPROBE p2 fa"]))
+    scen.append(("overlapping-transactions", ["SQLOPEN d1 fa - 4", "SQLTX2 s1 d1 %s" % q, "SQLTX2 s2 d1 %s" % q, "SQLQ s3 d1 direct %s 1" % q, "ARGS 0", "SQLCLOSE d1", "SQLPROBE p1 fa"]))
     for n, iters in ((8, 150), (16, 60)):
         scen.append(("open-query-close-churn-%d" % n, ["SQLCHURN ch fa preload=true %d %d %s" % (n, iters if tier == "quick" else iters * 5, q), "SQLPROBE p1 fa"]))
     for name, body in scen:
@@ -219,6 +234,11 @@ def sql_level(rep, scratch, rng, tier, dss, counts):
         why = None
         for l in il:
             f = l.split(" ", 2)
+            if f[0] == "SQL" and f[1].startswith("e"):
+                if f[2] != "ERR":
+                    why = "%s (a query the library rejects) answered %s (expected an error)" % (f[1], f[2][:80])
+                    break
+                continue
             if f[0] == "SQL":
                 file = "fb" if "fb" in " ".join(body[:1]) or f[1].startswith(("c", "s9")) and "fb" in " ".join(body) else "fa"
                 want = "ROWS 1 5 99 111 117 110 116 TYPES BIGINT:int64 N 1 | I %d" % counts[file]
@@ -268,7 +288,7 @@ def run(rep, scratch, tier, seed, replay=None):
             rep.violation("obligation", "the generated lock obligation of C17 no longer checks (coq/obligations/ObC17.v); histories and concurrent first use found no failing schedule",
                           {"broken": "C17_locks / C17_single_section", "unknown_to_policy": ob.get("unknown_to_policy", ""), "coqc_output": ob["output"][-2500:]}, no_input=True)
     rep.coverage.update({
-        "evaluations": nh + 11, "distinct_nontrivial": len(set(tuple(o[0] for o in h[0]) for h in hist)),
+        "evaluations": nh + 14, "distinct_nontrivial": len(set(tuple(o[0] for o in h[0]) for h in hist)),
         "rule": "well-formed histories of 3..14 driver.Conn-level operations (Open / query / Close) over 2 index files x option strings %s (+ missing file, + invalid cache size), each in a fresh process, compared with DriverSM.d_run (result class per operation; a query must return the count of its own file); database/sql scenarios: reopen after the last close, the same file under two option strings, pool sizes 1,2,4, first use by 2 and 16 goroutines; after the last close a non-blocking flock must succeed. Non-trivial = distinct operation-kind sequences." % OPTS,
         "failures": nbad, "samples": [" ; ".join(" ".join(o) for o in hist[5][0])],
     })
